@@ -124,7 +124,7 @@ func distMain(x *X) {
 			x.R.Skipped = "tie"
 			return
 		}
-		x.Viol("C10", "dist-vs-central", "error-mismatch|"+shape, fmt.Sprintf("%s: distributed error %q, central error %q", desc, do.Err, co.Err))
+		x.Viol("C10", "dist-vs-central", "error-mismatch|"+errClass(do.Err+co.Err)+"|"+shape, fmt.Sprintf("%s: distributed error %q, central error %q", desc, do.Err, co.Err))
 		return
 	}
 	if do.Err != "" {
